@@ -128,6 +128,7 @@ func init() {
 			{Rule: "RAPID.nil", Min: 2, Why: "nil sources + method calls"},
 			{Rule: "RAPID.utf8", Min: 3, Why: "ValueOfString sites"},
 			{Rule: "RAPID.any", Min: 1, Why: "genAny"},
+			{Rule: "RAPID.url", Min: 3, Why: "WithAnyTypes, WithInterfaceHint, genAny"},
 		},
 		Explanation: "SSA/AST rules on rapidproto; see level text. Runtime-value clauses (UTF-8, round trip, URL resolvability) are not decided.",
 	})
@@ -325,8 +326,8 @@ func init() {
 		Technique: "canonicalisation of every accessor arm / view method (positional renaming, temporary substitution that never duplicates an allocation, identity-conversion removal) compared with the per-kind forms derived from the descriptor; presence predicates and effect analysis for the read side",
 		DesignRef: "DESIGN.md 3.11, 4 C08",
 		LevelText: "A generated message's whole state is its Go struct and every accessor is a function of (struct state, arguments) only (PURE: read accessors write nothing), so per-operation conformance on all states gives conformance on all histories. For every field of every generated type, each arm of Has, Clear, Get, Set, Mutable, NewField (exactly one arm per schema field; unknown descriptors panic), each block of Range (each field exactly once, under its presence predicate, with its own descriptor variable and the value Get returns; a false callback stops), each arm of WhichOneof and every method of every list/map view is canonicalised and must equal the form the protoreflect contract prescribes for the field's kind and shape: value constructor / unwrapper / conversion of the kind, zero value, oneof wrapper asserted and constructed, view backed by a pointer to the field (write-through), allocation on Mutable, detached values from NewField/NewElement/NewValue. Open finding F9: Clear of a oneof member is unconditional. Not decided: agreement of returned values with dynamicpb as executed comparisons; panic message texts.",
-		Engines:      E{refl.RunAcc, refl.RunPure},
-		RulePrefixes: []string{"ACC", "PURE", "G.model", "G.anchor", "GEN.build"},
+		Engines:      E{refl.RunAcc, refl.RunPure, codec.RunUnkAccessors},
+		RulePrefixes: []string{"ACC", "PURE", "UNK.accessors", "G.model", "G.anchor", "GEN.build"},
 		Floors: []core.Floor{
 			{Rule: "ACC.arms", Min: 300, Why: "6 methods x message types"},
 			{Rule: "ACC.get", Min: 400, Why: "fields"},
